@@ -815,9 +815,16 @@ class EvolutionSuperOperator(SuperOperator, TimeDependent, Saveable):
                     ntime = time
                 else:
                     length = len(time)
+                    if length < 2:
+                        raise Exception("At least two times are needed; "+
+                                        "use a number for a single time")
                     dt = time[1]-time[0]
                     t0 = time[0]
                     ntime = TimeAxis(t0, length, dt)
+                    # the result is an evolution on a time axis: the times
+                    # given have to be the points of one
+                    if not numpy.allclose(ntime.data, numpy.array(time)):
+                        raise Exception("The times have to be equidistant")
                 
                 rhot = ReducedDensityMatrixEvolution(timeaxis=ntime,
                                                      rhoi=target)
